@@ -1,7 +1,13 @@
 """C04 — an accepted value comes back complete and unaltered inside the model.
 
 Correspondence: the canonical dump of every returned model vs the Lean model's result.
-Oracle: a structural walk of input vs returned object (`embeds`) that does not use the model."""
+Oracle: a structural walk of input vs returned object (`embeds`) that does not use the model.  At a composition the
+walk follows the sub-schema that the statement says builds the result (`builder`: the first listed one that accepts),
+so the kind of object / number that comes back is demanded there too; a member that was not in the input must be a
+declared property holding its default or the not-passed marker (`check_absent`).
+Histories: one element object validates whole sequences of values (`check_histories`: unions with overlapping
+branches at every position, later-branch values first), every accepted value judged on its own; a failure is
+recorded with the earlier calls it needs (`history` in the case) and replayed with them."""
 import copy
 import random
 
@@ -63,11 +69,86 @@ def sub_prop(elem, k):
     return add if isinstance(add, _E) else None
 
 
-def embeds(v, r, path, problems, regions, elem=None):
+def accepts(elem, v):
+    """Does the real element accept `v` on its own?  True / False / None (the call escaped with something else)."""
+    from statham.schema.exceptions import ValidationError
+    try:
+        elem(copy.deepcopy(v))
+    except (TypeError, ValidationError):
+        return False
+    except Exception:  # noqa: BLE001
+        return None
+    return True
+
+
+def builder(elem, v, seen=None, depth=0):
+    """The element that builds the result for an accepted `v` at a position governed by `elem`, as the statement
+    has it ("including which anyOf/oneOf/allOf branch builds the result"): a composition's result is the construction
+    of its first listed sub-schema that accepts the value (anyOf: the first that accepts; oneOf: the one that accepts;
+    allOf: all accept, so the first listed), followed through nested compositions.  Which sub-schemas accept is asked
+    of the sub-schemas themselves, one by one, never of the composition.  None = unknown (then nothing is demanded)."""
+    from statham.schema.elements.composition import CompositionElement, Not
+    if elem is None or isinstance(elem, Not) or depth > 12:
+        return None
+    if not isinstance(elem, CompositionElement):
+        return elem
+    mode = getattr(elem, "mode", None)
+    if mode not in ("anyOf", "oneOf", "allOf"):
+        return None
+    if seen is not None:
+        seen[mode] = seen.get(mode, 0) + 1
+    if mode == "allOf":
+        return builder(elem.elements[0], v, seen, depth + 1)
+    for position, sub in enumerate(elem.elements):
+        verdict = accepts(sub, v)
+        if verdict is None:
+            return None
+        if verdict:
+            if seen is not None and position:
+                seen["later-branch"] = seen.get("later-branch", 0) + 1
+            return builder(sub, v, seen, depth + 1)
+    return None
+
+
+def json_like(x, depth=0):
+    if x is None or isinstance(x, (bool, int, float, str)):
+        return True
+    if depth > 40:
+        return False
+    if isinstance(x, list):
+        return all(json_like(y, depth + 1) for y in x)
+    if isinstance(x, dict):
+        return all(isinstance(k, str) and json_like(y, depth + 1) for k, y in x.items())
+    return False
+
+
+def check_absent(elem_props, n, held, path, problems, regions):
+    """A result member that was not in the input: it must be a declared property (checked by the caller) holding
+    its default or the not-passed marker."""
+    if isinstance(held, NotPassed) or elem_props is None or n not in elem_props:
+        return
+    default = getattr(elem_props[n].element, "default", NotPassed())
+    if not isinstance(default, NotPassed):
+        if not json_like(default):
+            return
+        sub = []
+        embeds(default, held, f"{path}.{n}", sub, regions, None)
+        if not sub:
+            return
+    problems.append(f"{path}.{n}: declared property absent from the input holds {held!r}, which is neither its default "
+                    f"({'none declared' if isinstance(default, NotPassed) else repr(default)}) nor the not-passed marker")
+
+
+def embeds(v, r, path, problems, regions, elem=None, seen=None):
     """Is every part of input `v` present, unaltered, in result `r`?  `elem` (optional) is the element
-    governing this position, used only for what kind of object must come back."""
+    governing this position, used only for what kind of object must come back; a composition stands for the
+    sub-schema that builds its result (`builder`)."""
     from statham.schema.elements.meta import ObjectMeta as _OM
-    from statham.schema.elements import Number as _Number, Integer as _Integer
+    from statham.schema.elements import Number as _Number, Integer as _Integer, Element as _Element
+    elem = builder(elem, v, seen)
+    if elem is not None and not isinstance(elem, _OM) and isinstance(elem, _Element) and isinstance(v, dict) and isinstance(r, Object):
+        problems.append(f"{path}: expected an untyped object (built by {type(elem).__name__}), got an instance of model {type(r).__name__}")
+        return
     if isinstance(elem, _OM) and isinstance(v, dict) and not isinstance(r, elem):
         problems.append(f"{path}: expected an instance of model {elem.__name__}, got {type(r).__name__}")
         return
@@ -106,7 +187,7 @@ def embeds(v, r, path, problems, regions, elem=None):
             problems.append(f"{path}: list of {len(v)} came back with {len(r)} items")
         else:
             for i, (x, y) in enumerate(zip(v, r)):
-                embeds(x, y, f"{path}[{i}]", problems, regions, sub_item(elem, i))
+                embeds(x, y, f"{path}[{i}]", problems, regions, sub_item(elem, i), seen)
         return
     if isinstance(v, dict):
         if isinstance(r, Object):
@@ -140,7 +221,7 @@ def embeds(v, r, path, problems, regions, elem=None):
             for c in cands:
                 if c in mapping:
                     sub = []
-                    embeds(x, mapping[c], f"{path}.{c}", sub, regions, sub_prop(elem, k))
+                    embeds(x, mapping[c], f"{path}.{c}", sub, regions, sub_prop(elem, k), seen)
                     if not sub:
                         ok = True
                         matched.add(c)
@@ -156,17 +237,70 @@ def embeds(v, r, path, problems, regions, elem=None):
                     first_problem = first_problem or sub[0]
             if not ok:
                 problems.append(first_problem or f"{path}: member {k!r} is missing from the result")
+        if isinstance(r, Object):
+            own_props = type(r).properties
+        else:
+            own_props = getattr(elem, "properties", None) if elem is not None else None
+            if elem is not None and isinstance(own_props, NotPassed):
+                own_props = {}
         for n in mapping:
-            if n not in matched and declared is not None and n not in declared:
+            if n in matched:
+                continue
+            if own_props is not None and n not in own_props:
                 problems.append(f"{path}: result member {n!r} was not in the input and is not a declared property")
+            else:
+                check_absent(own_props, n, mapping[n], path, problems, regions)
         return
     problems.append(f"{path}: unexpected input type {type(v).__name__}")
 
 
-def check_case(drv, schema, values, out, stats):
+def enc_hist(v):
+    return {"$notpassed": 1} if isinstance(v, NotPassed) else v
+
+
+def dec_hist(v):
+    return NotPassed() if isinstance(v, dict) and set(v) == {"$notpassed"} else v
+
+
+def history_of(prior, value, schema=None, element=None):
+    """Which of the calls made on the same element object before the judged one (`prior`, in order) are needed for the
+    failure to show again on a freshly built element: none, else one of them, else all of them (None: it does not
+    show again even with all of them)."""
+    singles = []
+    for h in reversed(prior):
+        if not any(core._same_value(h, x) if not isinstance(h, NotPassed) else isinstance(x, NotPassed) for x in singles):  # pylint: disable=protected-access
+            singles.append(h)
+    for hist in [[]] + [[h] for h in singles[:16]] + ([list(prior)] if len(prior) > 1 else []):
+        try:
+            if _fails(schema, value, element, [enc_hist(h) for h in hist]):
+                return [enc_hist(h) for h in hist]
+        except Exception:  # noqa: BLE001
+            continue
+    return None
+
+
+def record_failure(out, stats, prior, value, what, fid, schema=None, element=None):
+    case = {"schema": schema, "value": value} if element is None else {"element": element, "value": value}
+    hist = history_of(prior, value, schema, element)
+    if hist is None:
+        # seen once, on this element object after these calls, and not again when everything is redone from scratch
+        case["history"] = [enc_hist(h) for h in prior]
+        case["shows_again"] = False
+        stats["failure-not-reproduced"] = stats.get("failure-not-reproduced", 0) + 1
+    elif hist:
+        case["history"] = hist
+        fid = None    # the listed findings are about one value on a fresh element, not about what was validated before
+        stats["failure-needs-history"] = stats.get("failure-needs-history", 0) + 1
+    out.failures.append({"case": case, "what": what, "finding": fid})
+    stats["embed-fail-" + str(fid)] = stats.get("embed-fail-" + str(fid), 0) + 1
+
+
+def check_case(drv, schema, values, out, stats, seen=None):
+    """The values are validated one after the other by ONE element object (the property is about every accepted
+    value, whatever the same schema object validated before), so value i is judged after the history values[:i]."""
     obs = observe(drv, schema, values, out, stats)
     if obs is None:
-        return
+        return False
     el = obs["el"]
     for i, v in enumerate(values):
         if isinstance(v, NotPassed):
@@ -175,7 +309,7 @@ def check_case(drv, schema, values, out, stats):
         if real["r"] != "ok":
             continue
         if real.get("input_altered"):
-            out.failures.append({"case": {"schema": schema, "value": obs["enc_args"][i]}, "what": "the call altered the value it was given", "finding": None})
+            out.failures.append({"case": {"schema": schema, "value": v}, "what": "the call altered the value it was given", "finding": None})
             continue
         # call again to get the object itself (the canonical dump has no attributes)
         try:
@@ -183,7 +317,7 @@ def check_case(drv, schema, values, out, stats):
         except Exception:  # noqa: BLE001
             continue
         problems, regions = [], set()
-        embeds(v, res, "$", problems, regions, el)
+        embeds(v, res, "$", problems, regions, el, seen)
         nontrivial = isinstance(v, (dict, list)) and len(v) > 0
         out.note_case({"schema": schema, "value": obs["enc_args"][i]}, nontrivial)
         stats["accepted"] = stats.get("accepted", 0) + 1
@@ -196,12 +330,12 @@ def check_case(drv, schema, values, out, stats):
             # a known region only if the model predicts exactly what the implementation returned
             if not (obs["tree_ok"] and (obs["models"][i] == real or obs["models"][i]["r"] == "crash")):
                 fid = None
-            out.failures.append({"case": {"schema": schema, "value": v}, "what": problems[0], "finding": fid})
-            stats["embed-fail-" + str(fid)] = stats.get("embed-fail-" + str(fid), 0) + 1
+            record_failure(out, stats, list(values) + list(values[:i]), v, problems[0], fid, schema=schema)
+    return True
 
 
-def check_dsl(drv, dump, values, out, stats):
-    """The same oracle on a tree built through the DSL (model tie via `elem_call`)."""
+def check_dsl(drv, dump, values, out, stats, seen=None):
+    """The same oracle on a tree built through the DSL (model tie via `elem_call`); one element object for all the values."""
     from harness import dsl
     el = dsl.build(dump)
     try:
@@ -218,7 +352,7 @@ def check_dsl(drv, dump, values, out, stats):
         stats["driver-error"] = stats.get("driver-error", 0) + 1
         return
     out.traces_validated += 1
-    for v, enc, model in zip(values, enc_args, rep["results"]):
+    for idx, (v, enc, model) in enumerate(zip(values, enc_args, rep["results"])):
         real = core.real_call(el, v)
         agree = model["r"] == "crash" or model == real
         if not agree and real["r"] in ("ok", "reject"):
@@ -233,15 +367,173 @@ def check_dsl(drv, dump, values, out, stats):
         except Exception:  # noqa: BLE001
             continue
         problems, regions = [], set()
-        embeds(v, res, "$", problems, regions, el)
+        embeds(v, res, "$", problems, regions, el, seen)
         out.note_case({"element": dump, "value": enc}, isinstance(v, (dict, list)) and len(v) > 0)
         stats["accepted-dsl"] = stats.get("accepted-dsl", 0) + 1
         if problems:
             fid = "C04-key-collision" if "key-collision" in regions else ("C04-int-precision" if "int-precision" in regions else None)
             if not agree:
                 fid = None
-            out.failures.append({"case": {"element": dump, "value": v}, "what": problems[0], "finding": fid})
-            stats["embed-fail-" + str(fid)] = stats.get("embed-fail-" + str(fid), 0) + 1
+            record_failure(out, stats, [x for y in values[:idx] for x in (y, y)] + [v], v, problems[0], fid, element=dump)
+
+
+# ----------------------------------------------------------------------------- histories over overlapping branches
+# "Whenever a value is accepted ... (including which anyOf/oneOf/allOf branch builds the result)": the schema object is
+# quantified once, the values many times.  One element object therefore validates a whole sequence of values - across
+# calls, and within one call as the items / members of one container - in which values built by a LATER listed branch
+# come before values that several branches accept, and each accepted value is judged on its own.
+
+BRANCH_SHAPES = [
+    {"type": "integer"}, {"type": "number"}, {"type": "number", "minimum": 0}, {"type": "integer", "maximum": 5},
+    {"multipleOf": 2}, {"type": "string"}, {"maxLength": 2}, {"type": "null"}, {"type": "boolean"}, {}, True,
+    {"type": "object", "title": "Keyword", "properties": {"class": {"type": "string"}, "weight": {"type": "number"}}, "required": ["class"]},
+    {"type": "object", "title": "Point", "properties": {"x": {"type": "number"}, "y": {"type": "number", "default": 0}}},
+    {"type": "object", "title": "Quantity", "properties": {"x": {"type": "integer"}, "unit": {"type": "string", "default": "m"}}, "required": ["x"]},
+    {"type": "object", "title": "Open"},
+    {"type": "object", "title": "Closed", "properties": {"y": {"type": "integer"}}, "additionalProperties": False},
+    {"properties": {"x": {"type": "integer"}, "unit": {"default": "m"}}, "required": ["x"]},
+    {"properties": {"unit": {"default": "ft"}, "a b": {"type": "number"}}},
+    {"additionalProperties": {"type": "number"}},
+    {"type": "array", "items": {"type": "number"}}, {"type": "array"}, {"items": {"type": "integer"}, "maxItems": 3},
+    {"items": [{"type": "number"}, {"type": "string"}]},
+]
+TYPE_LISTS = [
+    {"type": ["integer", "number"]}, {"type": ["number", "integer"], "minimum": 0}, {"type": ["integer", "number", "string"]},
+    {"type": ["object", "array"], "title": "Either", "properties": {"n": {"type": "number"}}, "items": {"type": "number"}},
+    {"type": ["null", "integer", "number"], "maximum": 100},
+]
+HISTORY_POOL = [0, 1, 2, 3, -2, 7, 10, 2.5, -0.5, 4.0, "a", "abc", "", None, True, [], [1, 2], [1, 2.5], ["a"], [3, "a"], [2, "a", 1], {},
+                {"class": "noun", "weight": 2, "extra": [1, 2]}, {"class": "verb"}, {"unrelated": True}, {"x": 1, "y": 2}, {"y": 2},
+                {"x": 1}, {"x": "s", "y": 1}, {"x": 2.5}, {"x": 3, "unit": "cm"}, {"weight": 3}, {"a b": 1}, {"n": 1}, {"k": 1, "l": 2.5}]
+POSITIONS = ["top", "items", "tuple-tail", "declared", "additional", "pattern", "in-allOf", "in-oneOf", "in-anyOf", "nested-items"]
+
+
+def make_union(rng, sg):
+    """(union schema, the branch schemas in listed order)"""
+    if rng.random() < 0.2:
+        u = copy.deepcopy(rng.choice(TYPE_LISTS))
+        return u, [{**u, "type": t} for t in u["type"]]
+    branches = [copy.deepcopy(b) for b in rng.sample(BRANCH_SHAPES, rng.choice([2, 2, 2, 3, 3, 4]))]
+    if rng.random() < 0.3:
+        sg.extreme = False
+        branches[rng.randrange(len(branches))] = sg.schema(2)
+    return {"anyOf": branches}, branches
+
+
+def place(position, union, seq, rng):
+    """The schema with `union` at `position`, and the calls that take the values `seq`, in order, to that one element."""
+    chunks, rest = [], list(seq)
+    while rest:
+        n = rng.choice([1, 2, 3, 4, len(rest)])
+        chunks.append(rest[:n])
+        rest = rest[n:]
+    keys = ["k%d" % j for j in range(len(seq))]
+    if position == "top":
+        return union, list(seq)
+    if position == "items":
+        return {"type": "array", "items": union}, [list(seq)] + chunks
+    if position == "nested-items":
+        return {"items": {"items": union}}, [[c for c in chunks]] + [[c] for c in chunks]
+    if position == "tuple-tail":
+        return {"items": [{"type": "string"}], "additionalItems": union}, [["s"] + list(seq)] + [["s"] + c for c in chunks]
+    if position == "declared":
+        return {"type": "object", "title": "Holder", "properties": {"held value": union}}, [{"held value": v} for v in seq]
+    if position == "additional":
+        return ({"properties": {"id": {"type": "integer"}}, "additionalProperties": union},
+                [dict(zip(keys, seq))] + [dict(zip(keys, c), id=1) for c in chunks])
+    if position == "pattern":
+        return {"type": "object", "title": "Bag", "patternProperties": {"^k": union}}, [dict(zip(keys, seq))] + [dict(zip(keys, c)) for c in chunks]
+    if position == "in-allOf":
+        return {"allOf": [union, {}]}, list(seq)
+    if position == "in-oneOf":
+        return {"oneOf": [{"type": "null"}, union]}, [v for v in seq if v is not None]
+    if position == "in-anyOf":
+        return {"anyOf": [{"const": "never"}, union]}, list(seq)
+    raise ValueError(position)
+
+
+def overlap_histories(rng, sg, vg, count, stats):
+    """Yields (position, schema, calls)."""
+    made = 0
+    while made < count:
+        union, branches = make_union(rng, sg)
+        parsed = [core.real_parse(b) for b in branches]
+        if any(st != "ok" for st, _ in parsed):
+            stats["history-branch-unparsed"] = stats.get("history-branch-unparsed", 0) + 1
+            made += 1
+            continue
+        cands = rng.sample(HISTORY_POOL, 9)
+        for b in branches:
+            cands += [vg.aimed(b) for _ in range(2)]
+        acc = []
+        for v in cands:
+            verdicts = [accepts(el, v) for _, el in parsed]
+            acc.append([j for j, ok in enumerate(verdicts) if ok] if None not in verdicts else None)
+        usable = [(v, a) for v, a in zip(cands, acc) if a]
+        rejected = [v for v, a in zip(cands, acc) if a == []]
+        if not usable:
+            made += 1
+            continue
+        for flavour in ("later-first", "shuffled"):
+            order = list(usable)
+            rng.shuffle(order)
+            if flavour == "later-first":
+                order.sort(key=lambda va: -va[1][0])       # stable: values built by later listed branches come first
+            # an overlap value is "primed" when an earlier value of the sequence was built by a later branch that accepts it too
+            primed = sum(1 for n, (v, a) in enumerate(order) if len(a) > 1 and any(b[0] > a[0] and b[0] in a for _, b in order[:n]))
+            stats["history-overlap-values"] = stats.get("history-overlap-values", 0) + sum(1 for _, a in order if len(a) > 1)
+            stats["history-primed-overlaps"] = stats.get("history-primed-overlaps", 0) + primed
+            seq = [v for v, _ in order]
+            position = rng.choice(POSITIONS)
+            schema, calls = place(position, union, seq, rng)
+            if position in ("top", "declared", "in-allOf", "in-anyOf") and rejected:
+                calls.insert(rng.randrange(len(calls) + 1), rejected[0] if position != "declared" else {"held value": rejected[0]})
+            stats["history-position-" + position] = stats.get("history-position-" + position, 0) + 1
+            yield position, schema, calls
+            made += 1
+
+
+def check_single(schema, calls, out, stats, seen=None):
+    """One element object, every value validated exactly once, every accepted result judged (no model involved; run
+    only after `check_case` found nothing to report on the same calls, known regions included)."""
+    status, el = core.real_parse(schema)
+    if status != "ok":
+        return
+    for i, v in enumerate(calls):
+        try:
+            res = el(copy.deepcopy(v))
+        except Exception:  # noqa: BLE001
+            continue
+        problems, regions = [], set()
+        embeds(v, res, "$", problems, regions, el, seen)
+        stats["history-single-accepted"] = stats.get("history-single-accepted", 0) + 1
+        if problems:
+            record_failure(out, stats, list(calls[:i]), v, problems[0], None, schema=schema)
+
+
+def check_histories(drv, rng, sg, vg, count, out, stats, seen, stop_at_first=False):
+    from harness import dsl
+    for n, (position, schema, calls) in enumerate(overlap_histories(rng, sg, vg, count, stats)):
+        if stop_at_first and any(f.get("finding") is None for f in out.failures):
+            break
+        before = len(out.failures)
+        observed = check_case(drv, schema, calls, out, stats, seen)
+        if observed and len(out.failures) == before:
+            # nothing at all went wrong when every call was made twice: now every call once
+            check_single(schema, calls, out, stats, seen)
+        if n % 4 == 0 and len(out.failures) == before:
+            # the same tree built through the DSL (a class object per model, shared by nothing else)
+            status, el = core.real_parse(schema)
+            if status == "ok":
+                try:
+                    dump = core.dump_elem(el)
+                    dsl.build(dump)
+                except Exception:  # noqa: BLE001
+                    stats["history-dsl-unbuildable"] = stats.get("history-dsl-unbuildable", 0) + 1
+                    continue
+                check_dsl(drv, dump, calls, out, stats, seen)
+                stats["history-dsl"] = stats.get("history-dsl", 0) + 1
+        stats["history-cases"] = stats.get("history-cases", 0) + 1
 
 
 def check_inherited(rng, i, out, stats):
@@ -284,23 +576,29 @@ def check_inherited(rng, i, out, stats):
                 return
 
 
-def run(ctx, scale=1.0):
+N_HISTORIES = {"quick": 160, "thorough": 4000}
+
+
+def run(ctx, scale=1.0, histories=1.0):
     rng = random.Random(ctx["seed"] + 4)
+    hrng = random.Random(ctx["seed"] * 7919 + 404)     # the history family has its own stream: the older families keep theirs
     out = Outcome()
     out.rule = ("schemas from the generator and the focused families; values aimed at acceptance; a case is an accepted (schema, value) "
                 "pair; non-trivial = the value is a non-empty array or object; distinct by SHA-256")
     stats = {}
+    seen = {}
     drv = core.Driver()
     try:
+        check_histories(drv, hrng, SchemaGen(hrng), ValueGen(hrng), int(N_HISTORIES[ctx["tier"]] * scale * histories), out, stats, seen)
         for schema, values in families(rng):
-            check_case(drv, schema, list(values), out, stats)
+            check_case(drv, schema, list(values), out, stats, seen)
         sg, vg = SchemaGen(rng), ValueGen(rng)
         n = int(N_SCHEMAS[ctx["tier"]] * scale)
         for i in range(n):
             extreme = (i % 12 == 11)
             sg.extreme = vg.extreme = vg.free.extreme = extreme
             schema = sg.schema()
-            check_case(drv, schema, vg.values(schema, 8), out, stats)
+            check_case(drv, schema, vg.values(schema, 8), out, stats, seen)
         # renamed properties, collisions, nested models, tuple tails, branches
         special = [
             ({"type": "object", "title": "M", "properties": {"a b": {"type": "integer"}, "class": {"type": "string"}},
@@ -317,31 +615,61 @@ def run(ctx, scale=1.0):
             ({"not": {"type": "string"}}, [{"a": [1, 2]}, [1, {"b": 2}], 3]),
         ]
         for schema, values in special:
-            check_case(drv, schema, values, out, stats)
+            check_case(drv, schema, values, out, stats, seen)
         from harness import dsl
         from harness.props.c08 import dump_to_schema
         dg = dsl.DumpGen(rng)
         for i in range(int(n / 3)):
             dump = dg.dump(3)
-            check_dsl(drv, dump, vg.values(dump_to_schema(dump), 8), out, stats)
+            check_dsl(drv, dump, vg.values(dump_to_schema(dump), 8), out, stats, seen)
         # model classes that inherit from a model class: the parent is used first, then the child (and the other way round)
         for i in range(int((10 if ctx["tier"] == "quick" else 200) * scale)):
             check_inherited(rng, i, out, stats)
     finally:
         drv.close()
+    for mode, n in seen.items():
+        stats["branch-resolved-" + mode] = n       # composition positions at which the oracle worked out the building branch
     out.stats = stats
     return out
 
 
 def search(ctx, reason):
+    """An obligation or the model/implementation tie broke: look for an input on which the statement itself fails.
+    `reason` only aims the search (which schemas to revisit, which family to enlarge); what is returned was judged by
+    `embeds` on the real code."""
+    import json
     sub = dict(ctx)
     sub["seed"] = ctx["seed"] + 49979687
+    rng = random.Random(sub["seed"] * 31 + 5)
+    text = json.dumps(reason, default=str, ensure_ascii=False)
+    out, stats, seen = Outcome(), {}, {}
+    drv = core.Driver()
+    try:
+        # 1. the schemas on which model and implementation disagreed, each as a history on one element object
+        vg = ValueGen(rng)
+        for dis in reason.get("disagreements", []):
+            schema = dis.get("schema")
+            if schema is None:
+                continue
+            for _ in range(6):
+                calls = vg.values(schema, 16)
+                if check_case(drv, schema, calls, out, stats, seen):
+                    check_single(schema, calls, out, stats, seen)
+        # 2. a composition is named: many more histories over overlapping branches
+        if any(w in text for w in ("anyOf", "oneOf", "allOf", "AnyOf", "OneOf", "AllOf", "omposition", "_attempt_schema")):
+            check_histories(drv, rng, SchemaGen(rng), ValueGen(rng), N_HISTORIES[ctx["tier"]] * 4, out, stats, seen, stop_at_first=True)
+    finally:
+        drv.close()
+    fresh = [f for f in out.failures if f.get("finding") is None]
+    if fresh:
+        return fresh[0]
     found = run(sub, scale=3.0 if ctx["tier"] == "quick" else 1.0)
     fresh = [f for f in found.failures if f.get("finding") is None]
     return fresh[0] if fresh else None
 
 
-def _fails(schema, value, element=None):
+def _fails(schema, value, element=None, history=()):
+    """Build the element afresh, make the `history` calls on it, then validate `value` and judge what comes back."""
     if element is not None:
         from harness import dsl
         status, el = "ok", dsl.build(element)
@@ -349,10 +677,19 @@ def _fails(schema, value, element=None):
         status, el = core.real_parse(schema)
     if status != "ok":
         return False
+    for h in history:
+        h = dec_hist(h)
+        try:
+            el(h if isinstance(h, NotPassed) else copy.deepcopy(h))
+        except Exception:  # noqa: BLE001
+            pass
+    given = copy.deepcopy(value)
     try:
-        res = el(value)
+        res = el(given)
     except Exception:  # noqa: BLE001
         return False
+    if not core._same_value(given, value):  # pylint: disable=protected-access
+        return True         # the call altered the value it was given
     problems, regions = [], set()
     embeds(value, res, "$", problems, regions, el)
     return bool(problems)
@@ -376,4 +713,4 @@ def replay(payload):
         out, stats = Outcome(), {}
         check_inherited(random.Random(0), i, out, stats)
         return not out.failures
-    return not _fails(case.get("schema"), case["value"], case.get("element"))
+    return not _fails(case.get("schema"), case["value"], case.get("element"), case.get("history") or ())
